@@ -299,3 +299,115 @@ func VHElemTypes() {
 	vAssert(len(cc) == 2*n && cc[0] == v && cc[2*n-1] == v, "Concat (struct)")
 	vCover("elem types done")
 }
+
+// VHSpliceLong: the splicing and copying helpers on slices of 63..300 elements (around the
+// sizes a block-wise implementation would treat specially), at positions near the ends, the
+// middle and block boundaries, with and without spare capacity.
+func VHSpliceLong() {
+	lens := []int{63, 64, 65, 127, 128, 129, 256, 257, 300}
+	n := lens[vChoose("len", len(lens))]
+	off := vInt("off")
+	vAssume(vAnd(off >= -1000000, off <= 1000000))
+	spare := []int{0, 1, 64}[vChoose("spare", 3)]
+	full := make([]int, n, n+spare)
+	for i := range full {
+		full[i] = i + off
+	}
+	pos := []int{0, 1, 63, 64, n / 2, n - 1, n}[vChoose("pos", 7)]
+	if pos > n {
+		pos = n
+	}
+	op := vChoose("op", 6)
+	s := full
+	switch op {
+	case 0: // Insert
+		Insert(&s, pos, -7+off)
+		vAssert(len(s) == n+1, "Insert (long): one element longer")
+		for i := range s {
+			want := i + off
+			if i == pos {
+				want = -7 + off
+			} else if i > pos {
+				want = i - 1 + off
+			}
+			vAssert(s[i] == want, "Insert (long): spliced in at the position, everything else in place")
+		}
+	case 1: // InsertSlice of 70 values
+		vals := make([]int, 70)
+		for i := range vals {
+			vals[i] = -100 - i + off
+		}
+		InsertSlice(&s, pos, vals)
+		vAssert(len(s) == n+70, "InsertSlice (long): len grows by the number of values")
+		for i := range s {
+			want := i + off
+			if i >= pos && i < pos+70 {
+				want = -100 - (i - pos) + off
+			} else if i >= pos+70 {
+				want = i - 70 + off
+			}
+			vAssert(s[i] == want, "InsertSlice (long): spliced in at the position, everything else in place")
+		}
+	case 2: // Remove
+		if pos == n {
+			pos = n - 1
+		}
+		Remove(&s, pos)
+		vAssert(len(s) == n-1, "Remove (long): one element shorter")
+		for i := range s {
+			want := i + off
+			if i >= pos {
+				want = i + 1 + off
+			}
+			vAssert(s[i] == want, "Remove (long): spliced out at the position, everything else in place")
+		}
+	case 3: // RemoveSlice of up to 65 values
+		l := 65
+		if pos+l > n {
+			l = n - pos
+		}
+		RemoveSlice(&s, pos, l)
+		vAssert(len(s) == n-l, "RemoveSlice (long): len shrinks by the length")
+		for i := range s {
+			want := i + off
+			if i >= pos {
+				want = i + l + off
+			}
+			vAssert(s[i] == want, "RemoveSlice (long): spliced out, everything else in place")
+		}
+	case 4: // Reverse, Clone, Concat
+		c := Clone(s)
+		Reverse(s)
+		for i := range s {
+			vAssert(s[i] == n-1-i+off, "Reverse (long): out[i] == in[n-1-i]")
+			vAssert(c[i] == i+off, "Clone (long): an independent copy")
+		}
+		cc := Concat(c, s[:pos])
+		vAssert(len(cc) == n+pos, "Concat (long): len is the sum")
+		for i := range cc {
+			want := i + off
+			if i >= n {
+				want = n - 1 - (i - n) + off
+			}
+			vAssert(cc[i] == want, "Concat (long): a then b")
+		}
+	case 5: // Grow, Repeat, Fill
+		g := Grow(s, 70)
+		vAssert(len(g) == n+70, "Grow (long): n more elements")
+		for i := range g {
+			want := 0
+			if i < n {
+				want = i + off
+			}
+			vAssert(g[i] == want, "Grow (long): the new elements are zero values, the old ones are kept")
+		}
+		r := Repeat(off, n)
+		vAssert(len(r) == n, "Repeat (long): count elements")
+		for i := range r {
+			vAssert(r[i] == off, "Repeat (long): every element is the value")
+		}
+	}
+	if n >= 128 {
+		vCover("splice long: >= 128 elements")
+	}
+}
